@@ -377,7 +377,12 @@ func runModels(seed uint64, out string, n int) {
 			}
 			for t := range rets {
 				for _, e := range rets[t] {
-					rb = append(rb, fmt.Sprintf("%s:%d", common.Hex(e.k), e.tok))
+					if e.tok == 0 {
+						// the zero V: Do returned without a result ("-" = no result; tokens of f start at 1)
+						rb = append(rb, fmt.Sprintf("%s:-", common.Hex(e.k)))
+					} else {
+						rb = append(rb, fmt.Sprintf("%s:%d", common.Hex(e.k), e.tok))
+					}
 					st.OnceCalls++
 				}
 			}
